@@ -83,12 +83,16 @@ def _code(fn, *a):
 VN_MASK = np.array([[1, 0, 1], [0, 0, 0], [1, 0, 1]], dtype=bool)
 
 
-def _mk_block(masked):
+DTYPES = {'int64': np.int64, 'int32': np.int32, 'uint8': np.uint8, 'int8': np.int8, 'float64': np.float64,
+          'bool': np.bool_}
+
+
+def _mk_block(masked, dtype=None):
     """a reusable 3x3 block; corners hold junk that a correct rule never reads"""
     if masked:
-        data = np.zeros((3, 3), dtype=np.int32)
+        data = np.zeros((3, 3), dtype=DTYPES[dtype] if dtype else np.int32)
         return np.ma.masked_array(data, VN_MASK), data
-    data = np.zeros((3, 3), dtype=np.int64)
+    data = np.zeros((3, 3), dtype=DTYPES[dtype] if dtype else np.int64)
     return data, data
 
 
@@ -170,7 +174,7 @@ def run_impl(c):
             rule = cpl.CTRBLRule(d, add_rotations=c['add_rot'])
             tbl = _items(rule.rule_table)
             ns = c['ns']
-            n, data = _mk_block(c.get('masked', False))
+            n, data = _mk_block(c.get('masked', False), c.get('dtype'))
             codes = []
             for cc in range(ns):
                 for t in range(ns):
@@ -181,6 +185,18 @@ def run_impl(c):
                                 codes.append(_code(rule, n, (1, 1), 1))
             return [tbl, codes]
         return list(call_impl(go, timeout=60))
+    if op == 'dsample':
+        def go():
+            rule = _rule(c['loop'])
+            n, data = _mk_block(c['masked'], c['dtype'])
+            out = []
+            for i, k in enumerate(c['keys']):
+                _fill(data, k, i)
+                if c['dtype'] == 'bool':
+                    data[0, 0] = data[0, 2] = data[2, 0] = data[2, 2] = i % 2
+                out.append(_code(rule, n, (1, 1), 1))
+            return out
+        return list(call_impl(go, timeout=120))
     if op == 'alias':
         def go():
             d = {tuple(k): v for k, v in c['items']}
@@ -194,7 +210,7 @@ def run_impl(c):
             if c.get('clear'):
                 d.clear()
             ns = c['ns']
-            n, data = _mk_block(c.get('masked', False))
+            n, data = _mk_block(c.get('masked', False), c.get('dtype'))
             codes = []
             for cc in range(ns):
                 for t in range(ns):
@@ -261,6 +277,11 @@ def to_coq(c, obs):
         chunks = [codes[i:i + 729] for i in range(0, len(codes), 729)]
         return '(CUser %s %s %s %s %s)' % (ctable(c['items']), cbool(c['add_rot']), cnat(c['ns']), ctable(tbl),
                                            '[' + '; '.join(_pack(ch) for ch in chunks) + ']')
+    if op == 'dsample':
+        codes = [11] * len(c['keys']) if bad else obs[1]
+        chunks = [codes[i:i + 729] for i in range(0, len(codes), 729)]
+        return '(CSample %s %s %s)' % (LCOQ[c['loop']], '[' + '; '.join(ckey(k) for k in c['keys']) + ']',
+                                       '[' + '; '.join(_pack(ch) for ch in chunks) + ']')
     if op == 'alias':
         tbl, codes = ([], []) if bad else obs[1]
         chunks = [codes[i:i + 729] for i in range(0, len(codes), 729)]
@@ -280,7 +301,7 @@ def nontrivial(c, obs):
     if obs[0] != 'ok':
         return False
     op = c['op']
-    if op == 'stream':
+    if op in ('stream', 'dsample'):
         return any(d <= 8 for d in obs[1])
     if op in ('user', 'alias'):
         return any(d <= 8 for d in obs[1][1])
@@ -335,6 +356,25 @@ def generate(rng, tier):
     # ---- the public rule_table property
     for loop in LOOPS:
         yield {'kind': 'rule_table/' + loop, 'op': 'ruletable', 'loop': loop}
+    # ---- other dtypes of the 3x3 block: 2000 random keys per loop and dtype (half of them listed keys or their
+    #      turns, so that the table branch is hit), plain and masked; bool: all 32 keys over {0,1}
+    nd = 2000 if tier == 'quick' else 6000
+    listed = {loop: [k for k in _rule(loop).rule_table if all(isinstance(x, int) and 0 <= x <= 8 for x in k)]
+              for loop in LOOPS}
+    for loop in LOOPS:
+        for dt in ('uint8', 'int8', 'int32', 'float64'):
+            keys = []
+            for i in range(nd):
+                if i % 2 and listed[loop]:
+                    keys.append(list(rng.choice(_rot_class(rng.choice(listed[loop])))))
+                else:
+                    keys.append([rng.randrange(9) for _ in range(5)])
+            yield {'kind': 'dtype/%s/%s' % (dt, loop), 'op': 'dsample', 'loop': loop, 'dtype': dt, 'keys': keys,
+                   'masked': dt in ('int8', 'float64')}
+        keys = [[(i >> j) & 1 for j in range(5)] for i in range(32)]
+        for masked in (False, True):
+            yield {'kind': 'dtype/bool/' + loop, 'op': 'dsample', 'loop': loop, 'dtype': 'bool', 'keys': keys,
+                   'masked': masked}
     # ---- explicit 3x3 blocks, all nine cells arbitrary (which cells are read)
     nb = 150 if tier == 'quick' else 1500
     for loop in LOOPS:
@@ -364,7 +404,7 @@ def generate(rng, tier):
         add_rot = (i // 2) % 2 == 0
         yield {'kind': 'user/%s/%s' % ('conflicts' if conflicts else 'one-image', 'rotations' if add_rot else 'plain'),
                'op': 'user', 'items': _user_table(rng, ns, conflicts), 'add_rot': add_rot, 'ns': ns,
-               'masked': i % 5 == 0}
+               'masked': i % 5 == 0, 'dtype': ['int64', 'int32', 'uint8', 'int8', 'float64'][i % 5] if i % 3 else None}
     # ---- no aliasing: the caller edits its dict AFTER the rule was constructed (delete / add / re-image); the rule
     #      must keep answering with the table it was constructed with
     na = 100 if tier == 'quick' else 1500
@@ -430,6 +470,10 @@ def shrink(c):
             yield dict(c, items=items[:i] + items[i + 1:])
         if c['ns'] > 1:
             yield dict(c, ns=c['ns'] - 1)
+    if op == 'dsample' and len(c['keys']) > 1:
+        h = len(c['keys']) // 2
+        yield dict(c, keys=c['keys'][:h])
+        yield dict(c, keys=c['keys'][h:])
     if op == 'alias':
         if c.get('clear'):
             yield dict(c, clear=False)
@@ -508,6 +552,9 @@ def _python_oracle():
                        'C15_%s_orientation_free' % loop)
                 break
             if loop != 'langton':
+                if k[0] == 8 and a != 0:
+                    bad = (k, '8 always becomes 0: %r answers %s' % (k, _show(a)), 'C15_eight_always_zero')
+                    break
                 if a > 8:
                     bad = (k, 'totality/range: %r answers %s' % (k, _show(a)), 'C15_%s_total_range' % loop)
                     break
@@ -522,6 +569,182 @@ def _python_oracle():
 
 def _show(code):
     return {9: 'ValueError', 10: 'None', 11: 'another exception', 12: 'a value outside 0..8'}.get(code, str(code))
+
+
+# ------------------------------------------------------------------ fail-closed AST gate for the constructor path
+# CTRBLRule.__call__ is under the translator (C15_source_tie). The constructor path (__init__, _init_rule_table, the
+# rule_table property) uses idioms outside the translator's subset (a dict built in a loop over .items(), list
+# pop/insert), so it is tied to Model/CTRBL.v (`init_rule_table`, `add_entry`, `rot`) by (a) the data-level theorem
+# C15_builtin_tables_are_closures, (b) the user-table correspondence, and (c) this gate: the AST of the three
+# definitions, with local names alpha-renamed, must be one of the shapes below, each of which was checked against the
+# model. Any other shape is an alarm: a 10x search for a disagreeing user table is run; if it finds none the alarm is
+# still raised, with ' no-failing-input-found'.
+import ast as _ast
+
+GATE_SHAPES = {
+    '__init__': ['''
+def __init__(self, rule_table, add_rotations=False):
+    self._rule_table = self._init_rule_table(rule_table, add_rotations)
+'''],
+    'rule_table': ['''
+def rule_table(self):
+    return self._rule_table
+'''],
+    '_init_rule_table': ['''
+def _init_rule_table(rule_table, add_rotations):
+    new_rule_table = {}
+    for rule, image in rule_table.items():
+        new_rule_table[rule] = image
+        if add_rotations:
+            r = list(rule)
+            for _ in range(3):
+                r.insert(1, r.pop(4))
+                new_rule_table[tuple(r)] = image
+    return new_rule_table
+''', '''
+def _init_rule_table(rule_table, add_rotations):
+    new_rule_table = {}
+    for rule, image in rule_table.items():
+        new_rule_table[rule] = image
+        if add_rotations:
+            c, t, r, b, l = rule
+            for turned in ((c, l, t, r, b), (c, b, l, t, r), (c, r, b, l, t)):
+                new_rule_table[turned] = image
+    return new_rule_table
+'''],
+}
+_KEEP_NAMES = {'list', 'tuple', 'range', 'dict', 'self', 'True', 'False', 'None'}
+
+
+def _shape(fn):
+    """args (with defaults) + body without the docstring, local names renamed in order of first appearance"""
+    body = list(fn.body)
+    if body and isinstance(body[0], _ast.Expr) and isinstance(getattr(body[0], 'value', None), _ast.Constant) \
+            and isinstance(body[0].value.value, str):
+        body = body[1:]
+    mod = _ast.Module(body=[_ast.FunctionDef(name='f', args=fn.args, body=body or [_ast.Pass()], decorator_list=[],
+                                             returns=None, type_comment=None)], type_ignores=[])
+    names = {}
+
+    def ren(x):
+        if x in _KEEP_NAMES:
+            return x
+        return names.setdefault(x, 'v%d' % len(names))
+    # NodeTransformer visits fields in source order (args, then body): the renaming is deterministic
+    class R(_ast.NodeTransformer):
+        def visit_arg(self, node):
+            return _ast.arg(arg=ren(node.arg), annotation=None)
+
+        def visit_Name(self, node):
+            return _ast.Name(id=ren(node.id), ctx=node.ctx)
+    import copy
+    mod = R().visit(copy.deepcopy(mod))
+    return _ast.dump(mod, annotate_fields=False)
+
+
+def _ast_gate():
+    """returns (ok, details) for the constructor path of cellpylib/ctrbl_rule.py in the tree under test"""
+    path = os.path.join(driver.REPO, 'cellpylib', 'ctrbl_rule.py')
+    details = {}
+    try:
+        tree = _ast.parse(open(path).read())
+    except Exception as e:  # noqa
+        return False, {'error': 'cannot parse %s: %s' % (path, type(e).__name__)}
+    cls = next((n for n in _ast.walk(tree) if isinstance(n, _ast.ClassDef) and n.name == 'CTRBLRule'), None)
+    if cls is None:
+        return False, {'error': 'class CTRBLRule not found in ' + path}
+    ok = True
+    for name, shapes in GATE_SHAPES.items():
+        fns = [n for n in cls.body if isinstance(n, _ast.FunctionDef) and n.name == name]
+        allowed = {_shape(_ast.parse(src).body[0]) for src in shapes}
+        if len(fns) != 1 or _shape(fns[0]) not in allowed:
+            ok = False
+            details[name] = 'not one of the %d accepted shapes' % len(shapes) if fns else 'not found'
+            if fns:
+                details[name + ' (source)'] = _ast.unparse(fns[0])[:1500]
+        else:
+            details[name] = 'accepted shape'
+    # an overriding constructor path in a subclass-free file only: other definitions touching _rule_table
+    others = [n.name for n in cls.body if isinstance(n, _ast.FunctionDef) and n.name not in GATE_SHAPES
+              and n.name != '__call__' and '_rule_table' in _ast.unparse(n)]
+    if others:
+        ok = False
+        details['other methods touching _rule_table'] = others
+    return ok, details
+
+
+def _ref_init(d, add_rot):
+    """the property, on a dict: every key (and with add_rotations its three turns) gets its image, later wins"""
+    out = {}
+    for k, v in d.items():
+        out[k] = v
+        if add_rot:
+            kk = k
+            for _ in range(3):
+                kk = rot(kk)
+                out[kk] = v
+    return out
+
+
+def _gate_search(seed, budget=5000):
+    """look for a user table on which the real constructor path departs from the property; returns a case or None"""
+    import random
+    import cellpylib as cpl
+    rng = random.Random(seed + 15)
+    for i in range(budget):
+        ns = rng.choice([2, 2, 3, 3, 4])
+        items = _user_table(rng, ns, conflicts=i % 2 == 1)
+        for add_rot in (False, True):
+            d = {tuple(k): v for k, v in items}
+            want = _ref_init(d, add_rot)
+            try:
+                rule = cpl.CTRBLRule(d, add_rot) if i % 2 else cpl.CTRBLRule(d, add_rotations=add_rot)
+                got = dict(rule.rule_table)
+            except Exception:  # noqa
+                got = None
+            if got != want:
+                return {'kind': 'user/gate-search', 'op': 'user', 'items': items, 'add_rot': add_rot, 'ns': ns,
+                        'masked': False}
+            # edit the caller's dict afterwards
+            edits = [[list(k), -1] for k in list(d)[:max(1, len(d) // 2)]] + [[[rng.randrange(ns) for _ in range(5)], 5]]
+            for k, v in edits:
+                if v < 0:
+                    d.pop(tuple(k), None)
+                else:
+                    d[tuple(k)] = v
+            if dict(rule.rule_table) != want:
+                return {'kind': 'user/alias/gate-search', 'op': 'alias', 'items': items, 'add_rot': add_rot, 'ns': ns,
+                        'edits': edits, 'clear': False, 'masked': False}
+        # default value of add_rotations
+        d = {tuple(k): v for k, v in items}
+        try:
+            if dict(cpl.CTRBLRule(d).rule_table) != _ref_init(d, False):
+                return {'kind': 'user/gate-search', 'op': 'user', 'items': items, 'add_rot': False, 'ns': ns,
+                        'masked': False, 'default_flag': True}
+        except Exception:  # noqa
+            pass
+    return None
+
+
+def _gate_findings(ctx):
+    ok, details = _ast_gate()
+    if ok:
+        return [{'info': True, 'what': 'AST gate: constructor path of CTRBLRule has an accepted shape', 'details': details}]
+    case = _gate_search(ctx.seed)
+    base = {'what': 'AST gate: the constructor path of CTRBLRule (__init__ / _init_rule_table / rule_table) is not one '
+                    'of the shapes that were checked against Model/CTRBL.v init_rule_table',
+            'theorem': 'gate:C15/_init_rule_table (ties C15_rotations_closed, _last_wins, _image, _absent, '
+                       '_no_rotations_identity to the code)', 'details': details}
+    if case is not None:
+        obs = run_impl(case)
+        term = to_coq(case, obs)
+        out, _ = driver.coq_eval(COQ_IMPORTS, 'check_case %s' % term)
+        if out is not None and re.search(r'=\s*false', out):
+            return [dict(base, what=base['what'] + '; the search found a user table on which the real constructor and '
+                                    'the model disagree', case=case, impl_observation=obs, coq_case_term=term, suffix='')]
+    return [dict(base, what=base['what'] + '; a search over %d random user tables (both flags, with edits of the '
+                            'caller\'s dict afterwards) found no disagreeing input' % 5000, case={},
+                 suffix=' no-failing-input-found')]
 
 
 # ------------------------------------------------------------------ regenerated data, hand compilation, witness search
@@ -594,11 +817,14 @@ WITNESS_THEOREMS = [
     (12, 'C15_loops_orientation_free_all_states', 'evoloop', "tturn evoloop_table (fun k => let '(c, t, r, b, l) := k in evoloop_default c t r b l)"),
     (13, 'C15_evoloop_defaults', 'evoloop',
      'find5 (states 9) (fun k => negb (ok_default em (fast_evoloop em) sayama_evoloop k))'),
+    (14, 'C15_eight_always_zero', 'sdsr', 'find5 (states 9) (fun k => negb (ok_eight (fast_sdsr sm) k))'),
+    (15, 'C15_eight_always_zero', 'evoloop', 'find5 (states 9) (fun k => negb (ok_eight (fast_evoloop em) k))'),
 ]
 
 WITNESS_HEADER = '''(* GENERATED by harness/props/c15.py: witness search for the finite theorems of GenProps/C15Tables.v.
    Uses the same boolean checkers; does not depend on the failed theorems. *)
 From CPL Require Import Model.Base Model.CTRBL Model.Loops Model.SayamaSpec gen.GenTables.
+From CPL Require Import Proofs.CTRBLProofs Proofs.CTRBLClauses.   (* table-independent; ok_eight *)
 Open Scope Z_scope.
 Definition lm := compile langton_table.
 Definition sm := compile sdsr_table.
@@ -719,6 +945,8 @@ def extra_checks(ctx):
         real = [f for f in findings if not f.get('info')]
         real.sort(key=lambda f: f.get('suffix', '') != '')
         findings = [f for f in findings if f.get('info')] + real[:3]
+    # fail-closed AST gate for the constructor path (not under the translator)
+    findings.extend(_gate_findings(ctx))
     # the property's own oracle, evaluated in Python on the implementation alone
     for f in _python_oracle():
         k = (f['case']['loop'], tuple(f['case']['key']))
